@@ -175,6 +175,79 @@ theorem xcopyBody_spec (s : Tbl) (hS : WF s) (hVs : VarsBij s) (m : Mgr) (hI : I
     have hl2v : m1.tbl.l2v = m.tbl.l2v := hs.frame.l2v
     simp [cmap, hj, nameAsg, hv, hl2v, hVm.v2l _ _ hjv]
 
+/-! ### `copy_bdds_from`: one memo for all roots -/
+
+/-- the loop `[copy_bdd(u, target, cache) for u in roots]` -/
+theorem xcopyList_spec (S : Tbl) (hS : WF S) (lm : List (Nat × Nat)) :
+    ∀ (us : List Int) (m : Mgr) (cache : HashMap Nat Int),
+    Inv m → m.lastLen = none → (∀ u ∈ us, S.Mem u) → CMemo lm S m.tbl cache →
+    (∀ u ∈ us, XLook lm S m.tbl u) →
+    ∃ rs m', xcopyList S us cache m = (.ok rs, m') ∧ Step m m' ∧ rs.length = us.length ∧
+      ∀ p ∈ us.zip rs, CPost lm S m'.tbl p.1 p.2 := by
+  intro us
+  induction us with
+  | nil =>
+    intro m cache hI _ _ _ _
+    exact ⟨[], m, rfl, Step.refl hI, rfl, fun p hp => by cases hp⟩
+  | cons u us ih =>
+    intro m cache hI hoff hmem hmemo hlook
+    obtain ⟨r, c1, m1, he1, hs1, hm1, hp1⟩ := xcopyF_spec S hS lm (S.nvars + 2) m u cache hI hoff
+      (hmem u List.mem_cons_self) hmemo (hlook u List.mem_cons_self) (by omega)
+    obtain ⟨rs, m2, he2, hs2, hlen, hall⟩ := ih m1 c1 hs1.inv (hs1.off hoff)
+      (fun x hx => hmem x (List.mem_cons_of_mem _ hx)) hm1
+      (fun x hx => (hlook x (List.mem_cons_of_mem _ hx)).frame hs1)
+    refine ⟨r :: rs, m2, ?_, hs1.trans hs2, by simp [hlen], ?_⟩
+    · simp only [xcopyList, he1, he2]
+    · intro p hp
+      rw [List.zip_cons_cons] at hp
+      rcases List.mem_cons.mp hp with h | h
+      · subst h
+        exact hp1.ext hs1.inv.wf.toWF hs2.ext
+      · exact hall p h
+
+/-- `dd._copy.copy_bdds_from(roots, target)`: every element of the result denotes, by variable
+name, the function of the corresponding root (one memo serves all roots) -/
+theorem xcopyList_denName (s : Tbl) (hS : WF s) (hVs : VarsBij s) (m : Mgr) (hI : Inv m)
+    (hoff : m.lastLen = none) (hVm : VarsBij m.tbl) (us : List Int) (hu : ∀ u ∈ us, s.Mem u)
+    (hsup : ∀ u ∈ us, ∀ i v, InSupp s u i → s.l2v[i]? = some v → m.tbl.vars.contains v = true) :
+    ∃ rs m', xcopyList s us {} m = (.ok rs, m') ∧ Inv m' ∧ Ext m.tbl m'.tbl ∧ Frame m m' ∧
+      rs.length = us.length ∧
+      ∀ p ∈ us.zip rs, m'.tbl.Mem p.2 ∧ (0 < p.2 ↔ 0 < p.1) ∧ denName m'.tbl p.2 = denName s p.1 := by
+  have hname : ∀ u ∈ us, ∀ i, InSupp s u i → ∃ v, s.l2v[i]? = some v := by
+    intro u _ i hi
+    obtain ⟨v, hv⟩ := hVs.onto i (hi.lt_nvars hS)
+    exact ⟨v, hVs.v2l _ _ hv⟩
+  have hlook : ∀ u ∈ us, ∀ i v, InSupp s u i → s.l2v[i]? = some v →
+      ∃ j, (copyMap s m.tbl).lookup i = some j ∧ m.tbl.vars[v]? = some j := by
+    intro u hu' i v hi hv
+    obtain ⟨j, hj⟩ := (vars_contains_iff m.tbl v).mp (hsup u hu' i v hi hv)
+    refine ⟨j, ?_, hj⟩
+    unfold copyMap
+    apply lookup_filterMap_unique (fun x => m.tbl.vars[x]?) v i j hj
+    · exact TreeMap.mem_toList_iff_getElem?_eq_some.mpr (hVs.l2v _ _ hv)
+    · intro v' hv'
+      exact hVs.inj (TreeMap.mem_toList_iff_getElem?_eq_some.mp hv') (hVs.l2v _ _ hv)
+  obtain ⟨rs, m1, he, hs, hlen, hall⟩ := xcopyList_spec s hS (copyMap s m.tbl) us m {} hI hoff hu
+    (CMemo.empty _ _ _)
+    (by
+      intro u hu' i hi
+      obtain ⟨v, hv⟩ := hname u hu' i hi
+      obtain ⟨j, hj, hjv⟩ := hlook u hu' i v hi hv
+      exact ⟨v, j, hv, hjv, hj, hVm.lt _ _ hjv⟩)
+  refine ⟨rs, m1, he, hs.inv, hs.ext, hs.frame, hlen, fun p hp => ?_⟩
+  have hpu : p.1 ∈ us := (List.of_mem_zip hp).1
+  have hpost := hall p hp
+  refine ⟨hpost.mr, hpost.sign, ?_⟩
+  funext a
+  show den m1.tbl p.2 (nameAsg m1.tbl a) = den s p.1 (nameAsg s a)
+  rw [hpost.den]
+  apply den_agree_supp s hS p.1 (hu p.1 hpu)
+  intro i hi
+  obtain ⟨v, hv⟩ := hname p.1 hpu i hi
+  obtain ⟨j, hj, hjv⟩ := hlook p.1 hpu i v hi hv
+  have hl2v : m1.tbl.l2v = m.tbl.l2v := hs.frame.l2v
+  simp [cmap, hj, nameAsg, hv, hl2v, hVm.v2l _ _ hjv]
+
 /-! ### counts: the state stays `Lite` for ARBITRARY arguments -/
 
 theorem xcopyF_lite (ext : Nat → Nat) (src : Tbl) :
